@@ -156,7 +156,7 @@ def run(ctx):
     from fractions import Fraction
     def cm(M): return '(' + clist(['(' + clist([cC(complex(x)) for x in r]) + ' : list C)' for r in M.tolist()]) + ' : list (list C))'
     for i in range(N(20, 120)):
-        k = rng.choice([2, 3, 4, 5] if ctx.quick else [2, 3, 4, 5, 6, 7]); nops = rng.choice([2, 2, 3])
+        k = rng.choice([2, 3, 4, 5, 8] if ctx.quick else [2, 3, 4, 5, 6, 7, 8, 9]); nops = rng.choice([2, 2, 3, 4, 5])
         mats = []
         for _ in range(nops):
             M = np.zeros((k, k), dtype=complex)
@@ -164,9 +164,7 @@ def run(ctx):
                 for b_ in range(a_ + 1, k):
                     if rng.random() < 0.8: M[a_, b_] = dyc(rng)
             mats.append(M)
-        order = rng.choice([k - 1, k, 6]) if k <= 7 else 6
-        order = max(order, k - 1)
-        if order > 6: continue          # the implementation supports orders up to 6 for two terms
+        order = max(rng.choice([k - 1, k, 6]), k - 1)      # any order >= k - 1 is exact on this algebra (orders 1 .. 9 occur)
         try:
             out = bch_expand(*mats, order=order)
         except Exception as e:
